@@ -24,7 +24,9 @@ ByteOps(ls) == {[k |-> "none", i |-> 0]} \cup {[k |-> "trunc", i |-> i] : i \in 
 
 GbCases == UNION {{<<sn, ms, [k |-> "none", i |-> 0]>> : ms \in MutSeqs(Seeds[sn], MutLen)} : sn \in {"s1", "s2", "sf"}}
            \cup UNION {{<<sn, <<>>, b>> : b \in ByteOps(Seeds[sn])} : sn \in {"s1", "s2", "sf"}}
-           \cup UNION {{<<"s1", <<m>>, b>> : b \in {[k |-> "trunc", i |-> Len(ApplyMut(Seed1, m))]}} : m \in {x \in MutsOf(Seed1) : x.a = "replace"}}
+           \cup UNION {{<<"s1", <<m>>, b>> : b \in {[k |-> "trunc", i |-> Len(ApplyMut(Seeds["s1"], m))]}} : m \in {x \in MutsOf(Seeds["s1"]) : x.a = "replace"}}
+           \* a two-record stream (the seed appended to itself) cut inside every line of the SECOND record
+           \cup {<<"s1", <<[a |-> "append", i |-> 0, v |-> ""]>>, [k |-> "trunc", i |-> i]>> : i \in (Len(Seed1) + 1)..(2 * Len(Seed1))}
 GbSeq == SetToSeq(GbCases)
 
 \* small grammars: token strings
